@@ -172,6 +172,11 @@ func c01Eligible(l wv.Leaf) bool {
 	return !strings.HasPrefix(l.Name, "VerifierData_ConstantSigmasCap")
 }
 
+var c01QuickCompiledKinds = map[string]bool{"PublicInputs": true, "Proof_WiresCap": true, "Proof_Openings_Wires": true, "Proof_Openings_PlonkSigmas": true, "Proof_Openings_QuotientPolys": true,
+	"Proof_OpeningProof_CommitPhaseMerkleCaps": true, "Proof_OpeningProof_FinalPoly_Coeffs": true, "Proof_OpeningProof_PowWitness": true, "VerifierData_CircuitDigest": true,
+	"Proof_OpeningProof_QueryRoundProofs_InitialTreesProof_EvalsProofs[0]_MerkleProof_Siblings": true, "Proof_OpeningProof_QueryRoundProofs_InitialTreesProof_EvalsProofs[2]_Elements": true,
+	"Proof_OpeningProof_QueryRoundProofs_Steps[0]_Evals": true, "Proof_OpeningProof_QueryRoundProofs_Steps[1]_MerkleProof_Siblings": true}
+
 func TestC01(t *testing.T) {
 	r := rec.New("C01")
 	defer r.Flush()
@@ -304,6 +309,9 @@ func TestC01(t *testing.T) {
 				}
 				if seen[l.Kind] >= lim {
 					continue
+				}
+				if !rec.Thorough() && !c01QuickCompiledKinds[l.Kind] {
+					continue // each rejected solve costs ~5 s on the compiled system; the thorough tier takes every kind
 				}
 				seen[l.Kind]++
 				p := []string{"+1", "-1", "zero", "swap", "+1", "-1"}[(i+seen[l.Kind])%6]
